@@ -234,7 +234,7 @@ pub fn expected_probes(prop: &str) -> &'static [&'static str] {
     match prop {
         "C01" => &["zero-gates", "one-gate", "gates-power-of-two", "gates-one-past-power-of-two", "gates-one-short-of-power-of-two", "gates-only-in-phase2", "phase2-present-gate-free", "prover-capacity-at-threshold", "verifier-capacity-at-threshold", "non-default-bases", "pending-crossed-phase-boundary", "commit-after-constrain", "commit-after-gate", "gate-while-pending", "pair-closed-after-other-gates", "constraint-constants-only", "constraint-committed-only", "zero-coefficient-term", "interleaved-sessions-equal-solo"],
         "C02" => &["cell:F10-wire-value:p1:unsatisfied", "cell:F10-wire-value:p2:unsatisfied", "cell:F10-gate-out:p1:unsatisfied", "cell:F10-gate-out:p2:unsatisfied", "cell:F10-gate-left:p1:unsatisfied", "cell:F10-gate-left:p2:unsatisfied", "cell:F10-gate-right:p1:unsatisfied", "cell:F10-gate-right:p2:unsatisfied", "cell:F10-constant:p1:unsatisfied", "cell:F10-constant:p2:unsatisfied", "cell:F10-commit-value:p1:unsatisfied", "cell:F10-wire-value:p1:still-satisfied", "batch-leg-rejected", "batch-pair-with-complementary-error"],
-        "C03" => &["agree:accept:all", "adversary:agree:accept:a1", "adversary:agree:reject:a0", "adversary:identity-commitment-produced", "relation-b-repaired"],
+        "C03" => &["agree:accept:all", "adversary:agree:accept:a1", "adversary:agree:reject:a0", "adversary:identity-commitment-produced", "relation-b-repaired", "adversary:mass-move:u-block-empty", "adversary:mass-move:u-block-non-empty"],
         "C04" => &["rejected-at-decoding", "tampered-proof-still-decoded", "decoded-to-identical-object"],
         "C05" => &["twin-accepted", "misdelivery-same-bound-context(no-demand)"],
         "C06" => &["followup-equal", "rejected-delivery-history-checked", "stopped-at-identity-point", "batch-member-histories-checked"],
@@ -251,8 +251,14 @@ pub fn expected_probes(prop: &str) -> &'static [&'static str] {
     }
 }
 
+/// true in the guard-off leg: binary bpsim-off (sources of this crate compiled
+/// without `hooks`, /repo linked without verif-hooks), started by ./check with BPSIM_LEG=off
+pub fn off_leg() -> bool {
+    std::env::var("BPSIM_LEG").map(|v| v == "off").unwrap_or(false)
+}
+
 pub const REAL: [&str; 6] = [
-    "ark-bulletproofs (all of /repo, built from the working tree with feature verif-hooks)",
+    "ark-bulletproofs (all of /repo, built from the working tree; main leg with feature verif-hooks, guard-off leg without it)",
     "arkworks field/group arithmetic, MSM, (de)serialisation",
     "sha3",
     "rand_chacha",
@@ -299,7 +305,7 @@ pub fn finish(ctx: &Ctx, stats: Stats, rep: Report) -> i32 {
             if !seen.insert(v.signature.clone()) || seen.len() > 5 {
                 continue;
             }
-            let path = format!("{}/{}-{}.json", rdir, ctx.seed, v.run);
+            let path = format!("{}/{}{}-{}.json", rdir, if off_leg() { "off-" } else { "" }, ctx.seed, v.run);
             // minimise: keep a candidate only if the same oracle still fails
             let oracle = v.oracle.clone();
             let prop = ctx.prop;
@@ -321,6 +327,7 @@ pub fn finish(ctx: &Ctx, stats: Stats, rep: Report) -> i32 {
                 "minimisation_candidates_tried": tried,
                 "original_case": if minimised { v.case.clone() } else { Value::Null },
                 "property": ctx.prop,
+                "build": if crate::HOOKS { "guard-on" } else { "guard-off" },
                 "seed": ctx.seed,
                 "run": v.run,
                 "tier": ctx.tier.name(),
@@ -347,6 +354,21 @@ pub fn finish(ctx: &Ctx, stats: Stats, rep: Report) -> i32 {
         0.0
     };
     let mut probes_all = stats.probes.clone();
+    // summary of the guard-off leg that ./check ran just before this one
+    let off_path = format!("{}/sim/target/off-legs/{}.json", ctx.verif_dir, ctx.prop);
+    let mut off_summary = Value::Null;
+    if !off_leg() && std::env::var("BPSIM_OFF_LEG_RAN").is_ok() {
+        if let Some(v) = std::fs::read_to_string(&off_path).ok().and_then(|s| serde_json::from_str::<Value>(&s).ok()) {
+            off_summary = json!({
+                "what": "the same check, same sources, compiled without the harness feature `hooks`, i.e. against /repo with the verif-hooks guard OFF (what users link); a slice of the quick budget; gate-overwrite faults are not available there",
+                "evaluations": v["coverage"]["evaluations"], "distinct_nontrivial": v["coverage"]["distinct_nontrivial"],
+                "logical_steps": v["coverage"]["logical_steps"], "fault_kinds_fired": v["coverage"]["fault_kinds_fired"],
+                "event_log_digest": v["coverage"]["event_log_digest"], "violations": v["violations"], "wall_s": v["wall_s"], "seed": v["seed"],
+            });
+            *probes_all.entry("guard-off-leg-ran".to_string()).or_insert(0) += v["coverage"]["evaluations"].as_u64().unwrap_or(0);
+        }
+        let _ = std::fs::remove_file(&off_path);
+    }
     for p in expected_probes(ctx.prop) {
         probes_all.entry(p.to_string()).or_insert(0);
     }
@@ -373,6 +395,9 @@ pub fn finish(ctx: &Ctx, stats: Stats, rep: Report) -> i32 {
         "replays": replay_paths,
         "workers": ctx.workers,
     });
+    if !off_summary.is_null() {
+        coverage["guard_off_leg"] = off_summary;
+    }
     if let (Some(c), Some(e)) = (coverage.as_object_mut(), rep.extra.as_object()) {
         for (k, v) in e {
             c.insert(k.clone(), v.clone());
@@ -388,7 +413,7 @@ pub fn finish(ctx: &Ctx, stats: Stats, rep: Report) -> i32 {
         "wall_s": wall,
         "violations": new_violations.len(),
     });
-    let edir = format!("{}/evidence", ctx.verif_dir);
+    let edir = if off_leg() { format!("{}/sim/target/off-legs", ctx.verif_dir) } else { format!("{}/evidence", ctx.verif_dir) };
     let _ = std::fs::create_dir_all(&edir);
     let path = format!("{}/{}.json", edir, ctx.prop);
     if let Err(e) = std::fs::write(&path, serde_json::to_string_pretty(&ev).unwrap()) {
@@ -396,9 +421,10 @@ pub fn finish(ctx: &Ctx, stats: Stats, rep: Report) -> i32 {
         return 2;
     }
     println!(
-        "{} {} seed={} evaluations={} distinct={} steps={} violations={} known={} wall={:.1}s digest={}",
+        "{} {}{} seed={} evaluations={} distinct={} steps={} violations={} known={} wall={:.1}s digest={}",
         ctx.prop,
         ctx.tier.name(),
+        if off_leg() { "[guard-off leg]" } else { "" },
         ctx.seed,
         stats.evaluations,
         stats.distinct.len(),
